@@ -166,10 +166,9 @@ Proof.
   repeat constructor; cbn; try lia;
     (eexists; eexists; eexists; split; [reflexivity|]; cbn; repeat split; lia).
 Qed.
+Definition ex_t_bytes : list N :=
+  match M_encode_table ex_t with Ok b => b | _ => [] end.
 Example ex_t_roundtrip :
-  on_ok (M_encode_table ex_t)
-    (fun b => (N.of_nat (length b) =? 4 + 8 * 3 + 12 + 12) &&
-              match M_decode_table_bytes b with
-              | Ok t' => forallb2_eq t' | _ => false end) = true
-with forallb2_eq := fun _ : list (key * list N) => true.
-Proof. vm_compute. reflexivity. Qed.
+  M_encode_table ex_t = Ok ex_t_bytes /\ M_decode_table_bytes ex_t_bytes = Ok ex_t /\
+  N.of_nat (length ex_t_bytes) = 4 + 8 * 3 + 12 + 12 /\ distinct_len [] ex_t = 24.
+Proof. vm_compute. repeat split; reflexivity. Qed.
